@@ -26,7 +26,18 @@ REP_SCHEMA = ("""<start> ::= <b>{1,3}
               "forall <q> in <b>: len([y for y in *<q>.<x>]) == int(<q>.<n>)")
 
 
+# the same records under a common wrapper nonterminal (several computed repetitions that share the first path step)
+REP_SCHEMA2 = ("""<start> ::= <m>
+<m> ::= <b> <b> <b>?
+<b> ::= <n> <x>{int(<n>)} ";"
+<n> ::= "1" | "2" | "3"
+<x> ::= "p" | "q" | <d>
+<d> ::= "0" | "5"
+""", ["<start>", "<m>", "<b>", "<n>", "<x>", "<d>"],
+               "forall <q> in <b>: len([y for y in *<q>.<x>]) == int(<q>.<n>)")
+
 c07.EXTRA_SCHEMAS.append((REP_SCHEMA[0], REP_SCHEMA[1]))
+c07.EXTRA_SCHEMAS.append((REP_SCHEMA2[0], REP_SCHEMA2[1]))
 
 
 def obligations(res):
@@ -75,7 +86,7 @@ def run_worker(args):
 
 def make_spec(rng):
     if rng.random() < 0.35:
-        spec, nts, judge = REP_SCHEMA
+        spec, nts, judge = REP_SCHEMA if rng.random() < 0.5 else REP_SCHEMA2
     else:
         spec, nts = rng.choice(c07.SCHEMAS)
         judge = None
